@@ -14,3 +14,4 @@ open GrVerif.Props.C02
 #print axioms rule_code_stays_inside_the_stack
 #print axioms no_code_leaves_the_stack
 #print axioms matcher_stays_inside_its_tables
+#print axioms silf_call_growth
